@@ -1,19 +1,23 @@
 # Manifest entries contributed per property (text, note, technique, design). Loaded by mkmanifest.py.
 CHECKS["C07"] = dict(
    text="Theorems about the Lean models of qmail.c (flagerr discipline with substdio buffering and write faults), qmail_close's verdict switch (table regenerated from the source), "
-        "received.c/date822fmt.c and the reply selection of qmail-smtpd/qmtpd/qmqpd: a flagged failure or an exit before qmail_close never leaves a complete envelope on qmail-queue's descriptor 1 "
+        "received.c/date822fmt.c/datetime.c and the reply selection of qmail-smtpd/qmtpd/qmqpd: a flagged failure or an exit before qmail_close never leaves a complete envelope on qmail-queue's descriptor 1 "
         "(for every body, sender, recipient sequence and write-fault schedule); verdict \"\" iff exit 0, no crash, no flagerr, D exactly for 11..40/115/82+D for all exit statuses; 250/K iff verdict \"\" "
-        "(and sender ok, no overflow, flagok); 554 hops before 552 size before 554/451; safeput emits only issafe bytes or '?', the Received field is exactly two lines. Tied to the current source by "
-        "three whole-program harnesses (real daemons + real qmail.c, real pipe/fork/execv of a stand-in queue program) compared byte for byte (replies, exit status, bytes on the queue program's "
-        "descriptors 0 and 1) with the compiled models over every exit status 0..255, sizes around databytes, hops 97..102, address lengths around 900/1000, NULs, every cut point and every "
-        "single-byte substitution of short sessions, write faults, random mutated sessions; the oracle (strict netstring grammar, reference decoder, independent calendar/hop count, qmail-queue.8 classes) "
-        "is evaluated on the implementation's behaviour.",
+        "(and sender ok, no overflow, flagok); 554 hops before 552 size before 554/451; the hop scanner of blast() equals, for every byte stream, the line-based count of header lines starting with "
+        "received/delivered in any case, and a count >= MAXHOPS gives 554 and no complete envelope for every queue outcome; datetime_tai is the proleptic Gregorian calendar for every integer instant "
+        "(independent days-from-civil round trip, uniqueness) with the exact range in which no C int overflows, and date822fmt renders it as D Mon YYYY HH:MM:SS -0000; safeput emits only issafe bytes or '?', "
+        "the Received field is exactly two lines. Tied to the current source by three whole-program harnesses (real daemons + real qmail.c, real pipe/fork/execv of a stand-in queue program) compared byte for byte "
+        "(replies, exit status, bytes on the queue program's descriptors 0 and 1) with the compiled models over every exit status 0..255, sizes around databytes, hops 97..102, address lengths around 900/1000, NULs, "
+        "every cut point and every single-byte substitution of short sessions, write faults, random mutated sessions, and by a fourth harness running the real datetime_tai/date822fmt on about 230000 instants "
+        "(every day 1968..2106, leap/century/era boundaries out to both ends of the supported range, negative and huge values, UBSan just outside the range); the oracle (strict netstring grammar, reference decoder, "
+        "independent calendar and hop count, qmail-queue.8 classes) is evaluated on the implementation's behaviour.",
    note=NOTE_COMMON + "Modelled, not verified: the queue program honours qmail-queue.8 (exit 0 only after a complete envelope; custom text starts with D/Z), pipes do not short-write, read chunking (4 chunkings run). "
-        "Not theorems (oracle + correspondence only): content equality on ack, prefix-monotonicity of the session parsers (every cut point is run), hop counter, datetime_tai. "
-        "Two open findings are reported as KNOWN-FINDING (qmtpd recipient-length digit check; unvalidated exit-82 text).",
-   technique="Lean 4 proof (buffer/prefix invariants, NUL-pair invariant of the envelope, decide over the regenerated switch table lifted to all statuses) + whole-program differential correspondence with fault injection",
+        "Also proved: on ack the queue program received exactly Received ++ decoded body and the envelope of the acknowledged sender/recipients (C07_content_*), and no proper prefix of a complete message/request/DATA gets to qmail_close or a reply (C07_cut_*). "
+        "Not theorems (oracle + correspondence only): the SMTP command part, rcpthosts, date822fmt for negative years. datetime_tai's yday is one too large from March on in 1900/2100/... (proved exactly; the field is unused). "
+        "QMTP replies still buffered in the 256-byte ssout are lost when the daemon exits on a later protocol violation (modelled; the oracle accounts for replies cut inside one message). "
+        "One open finding is reported as KNOWN-FINDING (unvalidated exit-82 text); the qmtpd recipient-length digit check is repaired (e90aa72).",
+   technique="Lean 4 proof (buffer/prefix invariants, NUL-pair invariant of the envelope, decide over the regenerated switch table lifted to all statuses, Mealy machine = line-based specification by induction over the stream, calendar arithmetic by omega over the SSA form of datetime_tai) + whole-program differential correspondence with fault injection",
    design="DESIGN.md §2 C07")
-
 CHECKS["C08"] = dict(
    text="Theorems over ALL configurations and ALL command sequences / byte streams about the Lean model of qmail-smtpd's transaction logic (commands() line reader, "
         "addrparse, bmfcheck, rcpthosts, smtp_helo/ehlo/rset/mail/rcpt/data as a state machine, the byte-level session with DATA swallowing its message): every envelope "
@@ -50,21 +54,31 @@ CHECKS["C09"] = dict(
    design="DESIGN.md §2 C09")
 
 CHECKS["C10"] = dict(
-   text="Theorems over ALL configurations and recipient byte strings about the Lean model of qmail-send's routing: rewrite() (default host, percent-hack loop, locals, "
-        "virtualdomains scan) equals the documented rule set routeSpec for every configuration without a repeated virtualdomains key (and the later entry wins otherwise); the "
-        "constmap hash table (djb hash of the case-folded key, bucket chains, hash+length+case_diffb test) is the case-insensitive finite map, with no hypothesis; routing is invariant "
-        "under ASCII case changes of address, envnoathost and keys; the todo_do record loop writes one record per T record to exactly one channel file in input order (partition, "
-        "interleaving, no merging); senderadd equals the documented VERP rule and is the identity otherwise; control.c's readers plus constmap_init's splitting yield exactly the "
-        "documented entries for NUL-free files; after a HUP the next preprocessed message uses the reread locals/virtualdomains (percenthack/envnoathost unchanged), without HUP "
-        "nothing changes. Tied to the current source by running the real control.c/constmap.c/getcontrols/rewrite/senderadd/comm_write in-process and the real qmail-send main() as a "
-        "child process with real SIGHUPs on generated control directories (virtual users, domains, wildcards, catch-all, exceptions, comments, case changes) and recipients built from "
-        "the configured names plus near-misses, exhaustively over {u,a,A,@,%,.} up to length 6/8; the oracle is the documented rule set evaluated on the implementation's output.",
+   text="30 theorems about the Lean model of qmail-send's routing, over ALL configurations, recipient byte strings, todo files and event traces. Function-level refinement "
+        "(no monitor involved): rewrite() (default host, percent-hack loop, locals, virtualdomains scan) equals the documented rule set routeSpec for every configuration without a "
+        "repeated virtualdomains key (later entry wins otherwise); the constmap hash table (djb hash of the case-folded key, bucket chains, hash+length+case_diffb test) is the "
+        "case-insensitive finite map with no hypothesis; routing is invariant under ASCII case changes; todo_do's record loop equals the documented preprocessing specTodo on EVERY byte "
+        "string (fails iff a record is empty or of unknown type; otherwise info = F records, local/remote = the routed T records in input order: partition, interleaving, no merging - "
+        "rewrite() provably introduces no NUL); senderadd equals the documented VERP rule; control.c's readers plus constmap_init's splitting yield exactly the documented entries for "
+        "NUL-free files, at start-up and at the HUP reread. Inductive consequences over every trace accepted by the monitor acceptAll (events: control files edited / SIGHUP sets the "
+        "flag / main loop passes its top and rereads if the flag is set / todo_do preprocesses a message under the configuration in force): without SIGHUP nothing changes whatever is "
+        "edited; after a HUP served at the loop top every later message until the next SIGHUP uses locals/virtualdomains as on disk at that moment, whatever is edited afterwards; "
+        "me/envnoathost/percenthack never change; and, end to end (C10_trace, simulation invariant between model state and documented state), every accepted trace from any start-up "
+        "directory satisfies the documented predicate specTrace (outputs = specTodo under specCfg, replaced by specHup at each served HUP), whose statement does not mention the model. "
+        "One-step facts that merely unfold the monitor: C10_hup (hup then top = reget of the files on disk), C10_hup_race (a SIGHUP after the flag test does not affect the next "
+        "message: the select race). The monitor's guard for a message (outputs = todoDo under the configuration in force) and the model functions are tied to the current source by "
+        "trace replay and differential runs: the real control.c/constmap.c/getcontrols/rewrite/senderadd/comm_write in-process, and the real qmail-send main() as a child process "
+        "with real SIGHUPs (control files edited before, at and after a served HUP; refused messages; deliveries enabled with the harness as qmail-clean and both spawners), every "
+        "observed trace fed event by event to accept/acceptAll (DISAGREE) and judged by specJudge/specStep/specTrace, routeSpec, verpSpec, specCfg evaluated on the implementation's "
+        "output (ORACLE); generated control directories (virtual users, domains, wildcards, catch-all, exceptions, comments, case changes, whole alphabet) and recipients built from the "
+        "configured names plus near-misses, exhaustively over {u,a,A,@,%,.} up to length 6/8.",
    note=NOTE_COMMON + "Modelled, not verified: LP64 hash width; control-file I/O errors and allocation failures; NUL bytes in control files (model exact, oracle not applied); "
-        "files with a repeated key are compared with the model only (outside the property's domain); the percent hack's repetition is read as a rule on the (local, domain) pair "
-        "(differs from a string-level reading only when an extracted fqdn contains '@'; counted and bounded by theorem C10_pct_string); the real-daemon runs use spawn concurrency 0 "
-        "and deliver SIGHUP only while the daemon is blocked in select().",
-   technique="Lean 4 proof (loop-to-specification refinement, hash-table/finite-map simulation, relational case-invariance, list partition) + differential correspondence with the C "
-             "functions in-process and with the real daemon process under SIGHUP",
+        "configurations with a repeated virtualdomains key are compared with the model only (repeated locals/percenthack keys are judged); the percent hack's repetition is read as a "
+        "rule on the (local, domain) pair (differs from a string-level reading only when an extracted fqdn contains '@'; counted, bounded by theorem C10_pct_string); SIGHUP is delivered "
+        "only while the daemon is blocked in select() and a step ends when it is blocked there again, which is what maps a harness step to the events hup, top (the select race is "
+        "stated as C10_hup_race, not exercised); a refused message is recognised through /proc (asleep in select() without a clean request); deliveries are always answered with success.",
+   technique="Lean 4 proof (loop-to-specification refinement, hash-table/finite-map simulation, relational case-invariance, list partition, trace induction and a simulation invariant "
+             "for the HUP monitor) + differential correspondence with the C functions in-process and trace replay of the real daemon process under SIGHUP, with and without deliveries",
    design="DESIGN.md §2 C10")
 CHECKS["C11"] = dict(
    text="31 theorems about the Lean model of qmail-newu / cdb / qmail-lspawn nughde_get+spawn+report / qmail-getpw (Nq/Users.lean), for ALL users/assign files, "
@@ -138,19 +152,27 @@ CHECKS["C14"] = dict(
    design="DESIGN.md §2 C14")
 CHECKS["C15"] = dict(
    text="Theorems about the Lean model of qmail-send.c's scheduling code and prioq.c: squareroot() is the exact integer root for ALL ages 0..2^32-1 (16-step loop invariant), saturates above, "
-        "never overflows for any non-negative long; nextretry() is strictly in the future and equals birth+(isqrt(age)+10|20)^2 (chanskip regenerated from the source), attempts are at least 100 s apart and the "
-        "expiring attempt is due by birth+(isqrt(lifetime)+skip)^2; for EVERY sequence of prioq_insert/prioq_delmin the array is a heap, prioq_min is a minimum, insert adds exactly the entry and delmin removes "
-        "exactly the root (multiset equalities, hole-technique sift loops transcribed index by index); pass_dochan starts only the heap minimum and only when due, promptly, earliest-due first; flagdying <=> recent > birth+lifetime and then "
-        "every K/Z/D report finishes the recipient (Z handled as D with the too-long text); pqfinish+pqstart reproduce the schedule; pqrun makes everything due. Tied to the current source by running the real static squareroot() "
-        "on every age below 2^28 (quick) / 2^32 (thorough) and around every perfect square, nextretry() on a 1.25M-point grid, prioq_* on all op sequences over 4 keys to length 8/10 plus random ones to 10^4 ops, and seeded daemon "
-        "histories over a real on-disk queue directory (real pqstart/pass_dochan/del_dochan/job_close/pqrun/pqfinish/pass_selprep with a virtual clock stepped around every retry time and the expiry boundary, ALRM, TERM+restart); "
-        "the property oracle is evaluated on the implementation's outputs.",
-   note=NOTE_COMMON + "Modelled, not verified: times are 64-bit and stay where the C arithmetic cannot overflow; the file system returns the mtime given to utimes (exercised on the real FS); spawners report only K/Z/D "
-        "(a mangled report is deferred even in the expiring pass: complement theorem); allocation failure, the SLEEP_SYSFAIL trouble paths and the select loop itself are outside the model (the loop belongs to the Daemon model of C03/C04/C16). "
+        "is monotone and never overflows for any non-negative long; nextretry() is strictly in the future, equals birth+(isqrt(age)+10|20)^2 (chanskip regenerated from the source), is monotone in the attempt time, "
+        "overflows for no long birth time below 2^63-65555^2 (wrapped machine arithmetic = mathematical value; complement: what the wrap-around gives beyond); for EVERY sequence of prioq_insert/prioq_delmin the array is a heap, "
+        "prioq_min is a minimum, insert adds exactly the entry and delmin removes exactly the root; pass_dochan starts only the heap minimum and only when due, promptly, earliest-due first; flagdying <=> recent > birth+lifetime and then "
+        "every K/Z/D report finishes the recipient; pqfinish+pqstart reproduce the schedule; pqrun makes everything due. HISTORY LEVEL, over all event histories of the daemon model (pqstart / pass_dochan+del_dochan+job_close+markdone / "
+        "pqrun / pqfinish / pass_selprep composed as in qmail-send.c, with injected open/getinfo/unlink/stat failures): well-formedness is an invariant of every step; after a pass that leaves a recipient to do, in EVERY continuation of clock "
+        "changes, passes with any reports and any system failure, and clean restarts, the message is not started again on that channel before birth+(isqrt(t-birth)+skip)^2; a due message is started within rank passes on its channel "
+        "(earliest-due first, no starvation); nothing is lost (every channel file stays scheduled, a message leaving its last channel is in pqdone); TERM+restart keeps every heap entry; once recent > birth+lifetime a pass answered K/Z/D "
+        "removes the message from the channel; every scheduled entry is due by birth+(isqrt(lifetime)+skip)^2 or already due along every fault-free history, hence every message leaves its channel within rank passes after that time. "
+        "FAILURE PATHS as pure functions with theorems: the trouble exit (recent+SLEEP_SYSFAIL, strictly later than the old due time), job_close in full, pqadd in full, pqfail in pass_do: never earlier than the persisted back-off time, "
+        "never lost from all of pqchan/pqdone/pqfail. Tied to the current source by running the real static squareroot() on every age below 2^28 (quick) / 2^32 (thorough) and around every perfect square, nextretry() on a 1.25M-point grid "
+        "plus the edges of the no-overflow range, prioq_* on all op sequences over 4 keys to length 8/10 plus random ones to 10^4 ops, seeded daemon histories over a real on-disk queue directory (real pqstart/pass_dochan/del_dochan/"
+        "job_close/pqrun/pqfinish/pass_selprep with a virtual clock stepped around every retry time and the expiry boundary, ALRM, TERM+restart, EIO injected into stat/unlink/open_read on a fifth of the passes) and pqadd/pqfail scenarios "
+        "through the real pass_do()+pqadd() with per-file stat outcomes; the property oracles (incl. a ghost monitor of the history back-off theorem and the nothing-is-lost predicate) are evaluated on the implementation's outputs.",
+   note=NOTE_COMMON + "Modelled, not verified: times are 64-bit longs (overflow range stated by C15_overflow_range; beyond it C has undefined behaviour, the complement theorem describes two's-complement wrap-around only); the file system returns "
+        "the mtime given to utimes (exercised on the real FS); spawners report only K/Z/D (a mangled report is deferred even in the expiring pass: complement theorem); system failures are injected by wrapping libc calls inside the included "
+        "source; allocation failure, utimes failure, messdone (and its pqdone re-insertion), the 'trouble reading'/'unknown record type' exits at history level and the select loop itself are outside the model (the loop belongs to the "
+        "Daemon model of C03/C04/C16): C15_hist_leaves bounds the number of passes after the expiry bound, not wall-clock seconds. pqfail is proved at function level (pqadd/pass_do) and is not part of the history model. "
         "Ages >= 2^32 s are outside the property's quantifier (complement theorems state the saturation).",
-   technique="Lean 4 proof (loop invariant with nlinarith; heap-with-a-hole invariants + swap permutations; induction over op sequences) + exhaustive/differential correspondence with the C code incl. function-level daemon histories on a real queue directory",
+   technique="Lean 4 proof (loop invariant with nlinarith; heap-with-a-hole invariants + swap permutations; induction over op sequences; inductive invariants WF/Tracked/Owed/DueBy over all histories of the daemon-step interpreter, rank variant for "
+        "no-starvation) + exhaustive/differential correspondence with the C code incl. function-level daemon histories on a real queue directory with libc fault injection",
    design="DESIGN.md §2 C15")
-
 CHECKS["C17"] = dict(
    text="31 theorems about the Lean models of quote.c, token822.c, qmail-remote.c addrmangle, commands.c, qmail-smtpd.c addrparse and qmail-inject.c. Quoting: for EVERY local part (any bytes) and every sane domain "
         "unquote(parse(quote2(local@domain)))=local@domain with token shape word(.word)*@domain; addrparse(<addrmangle a>)=a up to 899 bytes, refused beyond, through one commands() line; the regenerated ok[] table is "
@@ -173,18 +195,27 @@ CHECKS["C17"] = dict(
         "list induction over header fields) + exhaustive/grammar-based differential correspondence with the C code",
    design="DESIGN.md §2 C17")
 CHECKS["C18"] = dict(
-   text="Theorems over ALL request strings / command streams / report streams and ALL system-call outcomes about Lean models of qmail-clean.c main, "
-        "spawn.c getcmd/docmd/main with the report() of qmail-lspawn.c and qmail-rspawn.c, and qmail-send.c del_dochan: qmail-clean answers every request with exactly one "
-        "status byte, unlinks only intd/N, mess/(N mod split)/N resp. intd/N, todo/N of the canonical decimal N < 2^64 named by a 'foop/'/'todo/' request of 7..100 bytes, "
-        "nothing after 'x', and the whole-stream trace satisfies the oracle predicate; the spawners open only the command's message id, which is digits and non-leading '/', "
-        "never spawn for a non-regular or foreign-owned file (one Z report instead), and reports + running children grows by exactly one per command and is preserved by child "
-        "exit/output, over a whole session reports = complete commands, and a child's report body is a fixed text or a letter plus pieces of the child's own output; the report reader keeps dline <= REPORTMAX, ignores out-of-range/unused delivery numbers, and a report for a delivery in flight frees that slot and marks at "
-        "most that delivery's own record with the single byte D (nothing for an unknown letter), and over a whole stream the marks equal those of an independent reference reader and form a sub-multiset of the deliveries in flight. Tied to the current source by a translator for every report text/table and by "
-        "running the real code (sanitised build, system calls scripted, fork-free) against the compiled models on 2.6 M (quick) exhaustive and random cases with the property "
-        "oracle evaluated on the implementation's traces.",
-   note=NOTE_COMMON + "Modelled, not verified: system-call outcomes are inputs; OOM, write errors to the parent, EINTR and the child side after fork are not exercised; "
-        "the multiset of delivery numbers over a session and the bounce half of sendOK are checked by the oracle only; the session-level report count and the stream-level mark statements are theorems. The heap over-read this check found in qmail-rspawn.c report() is fixed (9e1dfcc); the pre-fix code is a detected mutant.",
-   technique="Lean 4 proof (validation cascades, decimal round trip, per-event balance invariants) + translator for report tables + exhaustive/structured differential correspondence of three real programs",
+   text="Theorems over ALL request strings / command streams / report streams and ALL system-call outcomes about Lean models of qmail-clean.c main + cleanuppid, "
+        "spawn.c getcmd/docmd/main with the report() of qmail-lspawn.c and qmail-rspawn.c, and qmail-send.c del_dochan. "
+        "Inductive consequences of the models' invariants over whole streams/sessions: qmail-clean's whole trace satisfies the oracle predicate cleanOK (per request at most one "
+        "cleanuppid sweep that unlinks only pid/<name> of listed entries whose stat succeeded with atime + OSSIFIED <= now, then only the files the request names, exactly one status "
+        "byte, nothing after 'x'), and every path ever unlinked is intd/N, mess/(N mod split)/N resp. intd/N, todo/N of a validated request or such an old pid/ entry; over a whole spawn "
+        "session (any chunking, interleaving, file-system behaviour) the oracle predicate opensOK holds: every open is the message id of a complete command of the input (independent "
+        "grammar) and is digits and non-leading '/', spawn() happens only directly after the open of a regular queue-owned file, in the slot and with the sender and recipient of a command "
+        "naming it, any other open is followed by one Z report; reports = complete commands and no child is left; the report reader keeps dline <= REPORTMAX, and over a whole stream the "
+        "records it marks equal those of a declarative reference reader (writer's grammar delnum-text-NUL, first report for a delivery in flight decides) and form a sub-multiset of the "
+        "deliveries in flight, each by the single byte D. Per-step case analyses that restate the guards of one model function (tied to the code by trace replay, not by an invariant): "
+        "one status per request, canonical decimal N < 2^64 of a 7..100-byte 'foop/'/'todo/' request, no spawn for a non-regular or foreign-owned file, reports + running children +1 per "
+        "command and preserved by child exit/output, a child's report body is a fixed text or a letter plus pieces of the child's own output, out-of-range/unused delivery numbers "
+        "ignored, a report in flight frees that slot and marks at most its own record. Tied to the current source by a translator for every report text/table/constant and by "
+        "running the real code (sanitised build, system calls incl. the pid/ directory scripted, fork-free) against the compiled models on 2.6 M (quick) exhaustive and random cases with the property "
+        "oracles evaluated on the implementation's traces.",
+   note=NOTE_COMMON + "Modelled, not verified: system-call outcomes (unlink/open/fstat/pipe/fork results, now(), the listing and access times of pid/) are inputs; OOM, write errors to the parent, "
+        "EINTR, negative time_t and the child side after fork are not exercised; the multiset of delivery numbers over a session and the bounce half of sendOK are checked by the oracle only. "
+        "cleanuppid's unlinks of pid/<name> older than 36 h are part of the model and of the oracle since the audit repair (before, the harness made opendir fail and the claim 'never any other path' "
+        "silently excluded them). The step-based reader refMarks shares the model's framing and serves only as proof bridge; the stated reference is the declarative one. "
+        "The heap over-read this check found in qmail-rspawn.c report() is fixed (9e1dfcc); the pre-fix code is a detected mutant.",
+   technique="Lean 4 proof (validation cascades, decimal round trip, framing-automaton invariant = independent grammar, per-event balance invariants, step-based = declarative reader) + translator for report tables + exhaustive/structured differential correspondence of three real programs",
    design="DESIGN.md §2 C18")
 CHECKS["C19"] = dict(
    text="Theorems (43, no sorry) over ALL stored messages, command streams and maildirs about the Lean model Nq.Pop3 of qmail-pop3d.c/maildir.c/prioq.c/commands.c and qmail-popup.c: "
@@ -254,14 +285,62 @@ CHECKS["C20"] = dict(
         "stralloc_catb/copyb and quote.c doit() with the exact 32-bit arithmetic of __builtin_add/mul_overflow (success => len <= a, a*sizeof = bytes requested without wrap, every store "
         "index < a; a request that does not fit 32 bits is refused untouched - the CVE-2005-1513 regime; quote.c doit()/quote_need() for every length that passes the two overflow checks, with the counter "
         "types read from the source - the pre-26e354b signed counters provably overflow for >= 2^30-byte addresses and are kept as a mutant model); substdio put/bput/flush/putflush/feed/get (0 <= p <= n, n+p = size, every byte_copy inside the buffer, caller buffer never overrun, stream laws for every write/read chunking); "
-        "the fixed buffers of qmail-qmqpd/qmail-qmtpd/qmail-getpw/qmail.c (sizes and guards regenerated from the sources), spawn.c slots and report truncation, REPORTMAX, pop3d msgno; dns.c "
+        "the fixed buffers of qmail-qmqpd/qmail-qmtpd/qmail-getpw/qmail.c as index-list models whose sizes and guards are regenerated from the sources and whose index sets are compared in-process with what the real "
+        "getbuf()/qmtpd main()/userext()/qmail_errstr()/quote_need() store or read; every length getlen() can return is < 2^31 for every byte stream and smtptext never exceeds HUGESMTPTEXT (over the C07/C09 models); "
+        "qmail-lspawn's accumulated child output <= truncreport for every chunk sequence (qmail-rspawn has no cut: stated); statements about other properties' models, labelled: spawn.c slots (C18), pop3d msgno (C19), REPORTMAX = C18_send_bound (cited); dns.c "
         "resolve/findname/findip/findmx (every read < responselen for every dn_expand honouring its contract; the pre-367ee1b code provably over-reads); the cdb reader on arbitrary files. "
         "Tied to the current source by differential harnesses on the real functions (ASan+UBSan, exact-size blocks, scripted allocator/descriptors, interposed resolver with poisoned buffer tail). "
         "NOT proved - covered only by sanitised execution: all other parser loops and whole programs: token822/cdb/control/constmap/ip/headerbody/getln in-process (~1.5M/13M cases) and the real "
         "sanitised qmail-smtpd/-qmtpd/-qmqpd/-pop3d/-popup/-inject/-local binaries on every truncation point, declared lengths up to 2^31/2^32/2^64, thousands of tokens, nesting 50000 "
         "(~12k/90k child runs); oracle = no sanitizer report/signal/hang, documented exit status.",
    note=NOTE_COMMON + "Partial: absence of UB outside the modelled arithmetic is evidence by instrumented execution, not proof. Assumed: LP64, builtin overflow semantics, malloc(0) != NULL, "
-        "read/write return 1..len or -1, resolver returns -1 or 12..buflen bytes, dn_expand contract (checked at run time), fmt_ulong <= 20 digits. Slot/REPORTMAX/msgno/cdb theorems are about the "
-        "models of C18/C19/C11. The 1 GiB quote() case runs in the thorough tier (and as failing-input search when an obligation breaks), not in quick.",
+        "read/write return 1..len or -1, resolver returns -1 or 12..buflen bytes, dn_expand contract (checked at run time), fmt_ulong <= 20 digits. Slot/msgno/cdb/getlen/smtptext theorems are about the "
+        "models of C18/C19/C11/C07/C09 (tied by those properties' harnesses; cdbSeek and reportBody re-tied here). C20_checks_present/C20_sources_recognised are tripwires on the source text, not semantic theorems. The 1 GiB quote() case runs in the thorough tier (and as failing-input search when an obligation breaks), not in quick.",
    technique="Lean 4 proof (bounds arithmetic over exact machine-integer models; inductive stream laws) + translator for buffer sizes/guards + differential correspondence + sanitised execution of real binaries",
    design="DESIGN.md §2 C20")
+CHECKS["C01"] = dict(
+   text="Theorems over EVERY accepted system-call trace of the Lean acceptor of qmail-queue.c main() (hence every message, envelope, read/write chunking, short write, EINTR, failing call, "
+        "caught signal at any point after alarm(DEATH), chdir/alloc failure) and, by prefix-closure, every instant at which the process or machine stops, with every file not fsynced since its last "
+        "change arbitrary after the crash. Inductive consequences of the invariants: todo visible => message file = Received line + supplied bytes, envelope well-formed and stored exactly (C01_atomic); "
+        "exit 0 => visible and durable (C01_success); exit with any code other than 0 and the signal handlers' 52/81 => never visible (C01_failure); exit 52/81 (handlers do not clean up) => visible only if "
+        "link(intd,todo) had succeeded, and then complete as after success (C01_killed); leftovers only pid / pid+mess / mess / mess+intd (C01_leftovers); in a run in which no call fails the exit code IS the "
+        "documented verdict on the envelope - 0 well-formed, 91 wrong record letter, 11 address of 1003 bytes, 54 stream ends first - and a non-well-formed envelope leaves nothing visible (C01_refusal), "
+        "conversely 91/11 arise only from the scanner's verdict whatever fails (C01_refusal_only). About the scanner function alone: it accepts exactly F sender NUL (T rcpt NUL)* NUL with NUL-free addresses "
+        "<= 1002 bytes (soundness, completeness, the 1003-byte refusal, 54 <=> no verdict on any prefix). Restatements of acceptor guards, tied to the code only by the trace replay: a run starts with "
+        "alarm(DEATH) or is a bare exit 61/62/51, DEATH < OSSIFIED (constants regenerated from the sources) (C01_timer); after a delivered signal the trace has nothing but _exit(52|81) (C01_handler_no_cleanup). "
+        "Tied to the code by replaying the real qmail-queue's traces, recorded under an in-memory POSIX simulator for ~14000/36000 (input, chunking, fault list) cases - well-formed and "
+        "malformed/truncated/over-long envelopes, every call index x {EIO, ENOSPC, short write, EINTR} also on the runs whose input fails by itself (so every call inside cleanup() is faulted), fault pairs, "
+        "random fault chains of up to 3, SIGALRM (clock jump past alarm(DEATH), the program's own handler) at every call index incl. after the link and inside cleanup() and after a first fault, missing "
+        "/var/qmail or queue, each alloc() of qmail-queue.c failing, SIGBUS at an alloc() - through the acceptor, and by judging with the property oracle every final state and the concrete crash states "
+        "(x 5 loss resolutions) at every call of traces of up to 150 calls and at the first 40, last 60 and every 97th call of longer ones; the exit code is judged against the documented verdict in every "
+        "run whose trace shows no failing event; the Received line is checked against the documented format computed from the uid/pid/instant given (4 uid forms, instants 1970-2099).",
+   note=NOTE_COMMON + "Modelled, not verified: the OS semantics of DESIGN.md 1.4 as implemented by harness/sim.c (synchronous atomic directory operations, fsync durability, arbitrary loss of un-fsynced "
+        "data, unique inode numbers); signals are delivered between system calls only, and SIGBUS only at the program's alloc() calls (2 control points); chdir and alloc() are not traced by the simulator - "
+        "their failures appear in the model as bare exits 61/62/51 at the control points where the source can reach them; die(81) from the unreachable pidfmt() length test is not modelled; the calendar "
+        "of the Received date is Nq.Datetime.tai (proved against the civil calendar in C07). Observation on the unchanged tree (allowed by C01, not a defect): SIGALRM between link(intd,todo) and _exit "
+        "gives exit 52 with the complete message queued.",
+   technique="Lean 4 proof (three inductive invariants over a system-call trace acceptor + crash relation: state/file-system coupling, exit-code provenance, forward exit-code determination; scanner "
+        "soundness/completeness) + trace-replay correspondence with the real qmail-queue under a simulated libc with fault, signal and crash injection",
+   design="DESIGN.md §2 C01")
+
+CHECKS["C16"] = dict(
+   text="Theorems (1) over ALL interleavings of any number of injectors with the daemon (inductive invariant of the Lean acceptor of the trigger protocol: link todo, open/write/close of the FIFO vs "
+        "trigger_set's close/reopen, opendir, readdir): whenever the daemon is outside a todo scan and an injector has completed its publish-then-signal steps for an unprocessed entry, the trigger descriptor is "
+        "readable; otherwise a re-arm is in progress or the open scan will still return the entry; trigger_set precedes opendir and link precedes the pull; BOUNDED-STEPS LIVENESS: from any state satisfying the "
+        "invariant every run of the daemon's own steps (no injector step, no 25-minute timer, any readdir order) of length 2*|todo|+3 has processed the entry (strictly decreasing measure; bound attained), and the "
+        "daemon is never blocked while a completed injection is unprocessed; (2) about the Lean transcription of qmail-send.c main()'s whole select preparation (wakeup = recent+SLEEP_FOREVER, pass_selprep, "
+        "todo_selprep, cleanup_selprep, comm/del/trigger descriptor sets, tv_sec, loop condition) as a function of a snapshot of the daemon's globals: C16_no_spin - timeout = 0 IFF a pass has a free slot, a todo or "
+        "cleanup scan is in progress or a due time has been reached; otherwise 0 < timeout = wakeup-recent+SLEEP_FUZZ where wakeup is EXACTLY the minimum of recent+SLEEP_FOREVER and the due times the daemon can act on "
+        "(never past its earliest due event by more than the fuzz, never for nothing); a select that does not sleep (timeout 0 or a watched descriptor ready) is always followed by a *_do that passes its guards, and a "
+        "sleep is only requested when none would act (the exit-time pqfail/pqdone exception is stated); complement theorem for a pre-1970 clock. Tied to the code by running the real qmail-queue (2 instances), "
+        "qmail-send and qmail-clean as threads under an in-memory POSIX simulator with every interleaving of the trigger-related system calls enumerated for one injector and enumerated/sampled for two (both readdir "
+        "semantics), each trace replayed through the acceptor (oracle: never sleeps with a completed injection unprocessed; processed within the proved bound), and by reading the real daemon's globals inside every "
+        "select() of these runs and of ~650/22000 daemon scenarios (deliveries, deferrals, bounce failures, faults, TERM with deliveries in flight, crashes, restarts): ~0.85M/18M selects whose timeout and descriptor sets "
+        "must equal the model's (DISAGREE) and satisfy the theorem's predicates evaluated on the implementation's values (ORACLE). The select(timeout 0) spin oracle over the C03 histories is kept.",
+   note=NOTE_COMMON + "Modelled, not verified: FIFO semantics of DESIGN.md 1.4 as implemented by harness/sim.c; the periodic rescan is outside the trigger model on purpose; times are unbounded integers (no overflow of "
+        "datetime_sec); the snapshot read inside select() is what the *_selprep functions saw (they do not write the globals they read); bodyActs states that a *_do function gets past its guards - what it then does "
+        "belongs to C03/C04/C15; nfds is covered by correspondence only. Observation (not a violation, clock before 1970 only): `*wakeup = 0` is the literal epoch, so with recent < 0 the daemon would sleep -recent+1 s "
+        "with work pending (C16_pre_epoch).",
+   technique="Lean 4 proof (inductive invariant over unbounded interleavings; decreasing measure for bounded-steps liveness; exact-minimum characterisation of the select timeout) + systematic schedule enumeration of the real "
+             "programs under a simulated libc, traces replayed through the acceptor, + state snapshots of the running daemon at every select compared with the model and judged by the theorem's predicates",
+   design="DESIGN.md §2 C16, Appendix C")
